@@ -16,6 +16,8 @@
   * `s[i]` on a `[]byte` / `string` panics unless `0 ≤ i < len(s)`: `idx` returns `none` (= panic).
   * `&&` / `||` evaluate their right operand only when needed (`andM` / `orM` when the operand can panic).
   * `strings.Compare` / `bytes.Compare` compare byte-wise lexicographically and return -1, 0 or 1.
+  * a `map[string]int64` is an association list read with `mapGet` (`v, ok := m[k]`: `v` is the zero value when absent);
+    string constants are the lists of their UTF-8 bytes.
   * `binary.BigEndian.Uint32(b)` panics unless `len(b) ≥ 4` and reads the first four bytes, most significant first.
 -/
 namespace GoSem
@@ -49,6 +51,10 @@ def compareBytes : Bytes → Bytes → Int
   | [], _ :: _ => -1
   | _ :: _, [] => 1
   | x :: xs, y :: ys => if x < y then -1 else if y < x then 1 else compareBytes xs ys
+
+/-- `v, ok := m[k]` on a `map[string]int64` (keys are unique in a Go map): `some v` iff present -/
+def mapGet (m : List (Bytes × Int)) (k : Bytes) : Option Int :=
+  (m.find? (fun kv => kv.1 == k)).map (·.2)
 
 def u32mod : Nat := 4294967296
 
